@@ -526,9 +526,11 @@ func runNonEmptyLinux(c Case, safe6 bool, res *Result) {
 		if old, _, ok := run("", withoutFile(files, "spoc.raw")); ok {
 			reach("older-without-raw", old, files, c, false)
 		}
-		c2 := c
-		c2.Raw = File{}
-		reach("raw-withdrawn", full, withoutFile(files, "spoc.raw"), c2, false)
+		if c.V4.Present || c.V6.Present { // a target without any file is no target
+			c2 := c
+			c2.Raw = File{}
+			reach("raw-withdrawn", full, withoutFile(files, "spoc.raw"), c2, false)
+		}
 	}
 	if c.V6.Present && c.V4.Present {
 		if old, _, ok := run("", withoutFile(files, "ipv6/spoc")); ok {
@@ -554,7 +556,7 @@ func linuxAfter(dev, out string) string {
 	or, ot := split(out)
 	hasTable := false
 	for _, l := range ot {
-		hasTable = hasTable || strings.HasPrefix(l, "*")
+		hasTable = hasTable || strings.HasPrefix(l, "*") || strings.HasPrefix(l, "#!/sbin/iptables-restore") // header alone: the empty ruleset
 	}
 	if hasTable {
 		dt = ot
